@@ -29,7 +29,7 @@ class SplitIt:
 def mkstr(chars, name="s"):
     chars = tuple(chars)
     if all(isinstance(c, int) for c in chars):
-        return ConcStr("".join(chr(c) for c in chars))
+        return ConcStr("".join(chr(c) for c in chars))        # (code points: concrete multi-byte characters stay characters)
     return SymStr(name, chars)
 
 
@@ -96,15 +96,82 @@ def make_models():
         ex.write_ref(st, sref, replace(s, pos=s.pos + n))
         return enum("Ok", UNIT)
 
+    def m_by_ref(ex, st, args, dest_ty, fname):
+        return args[0]
+
+    def m_take(ex, st, args, dest_ty, fname):
+        from .models_ws import TakeRd
+        return TakeRd(args[0], args[1])
+
+    def m_take_read_to_end(ex, st, args, dest_ty, fname):
+        from .models_ws import TakeRd
+        tref = ref_to(ex, st, args[0])
+        t = ex.deref(tref, st)
+        sref = stream_of(ex, st, t.inner)
+        s = ex.deref(sref, st)
+        vref = ref_to(ex, st, args[1])
+        vec = ex.deref(vref, st)
+        lim = t.limit
+        remaining = len(s.inp) - s.pos
+        def do(n, st2):
+            ex.write_ref(st2, vref, VecM(tuple(vec.items) + tuple(s.inp[s.pos:s.pos + n])))
+            ex.write_ref(st2, sref, replace(s, pos=s.pos + n))
+        if not is_sym(lim):
+            n = min(lim, remaining)
+            do(n, st)
+            return enum("Ok", n)
+        cases = []
+        for k in range(0, remaining):
+            c = _simp(lim == k)
+            if c is not False and ex.ctx.feasible(st.pc, z3bool(c) if c is not True else True):
+                st2 = state_copy(ex, st)
+                do(k, st2)
+                cases.append((c, enum("Ok", k), heap_of(st2)))
+        c = _simp(lim >= remaining)
+        if c is not False and ex.ctx.feasible(st.pc, z3bool(c) if c is not True else True):
+            st2 = state_copy(ex, st)
+            do(remaining, st2)
+            cases.append((c, enum("Ok", remaining), heap_of(st2)))
+        return ("__with_heap__", cases)
+
+    def m_vec_len(ex, st, args, dest_ty, fname):
+        return len(elems(ex, st, args[0]))
+
     def m_from_utf8(ex, st, args, dest_ty, fname):
-        items = elems(ex, st, args[0])
-        ok = True
-        for b in items:
-            ok = b_and(ok, _simp(b < 128))
-        ok = _simp(ok)
-        if ok is not True and ex.ctx.feasible(st.pc, z3bool(b_not(ok))):
-            raise ExecError("from_utf8 on bytes that may be non-ASCII (outside the encoding)")
-        return enum("Ok", ("refval", mkstr(items, "line")))
+        """from_utf8 / String::from_utf8: symbolic bytes must be ASCII (assumed by the templates); concrete bytes are decoded as UTF-8
+        (so that multi-byte characters can be placed at slicing positions); invalid UTF-8 in the concrete part -> Err."""
+        items = list(elems(ex, st, args[0]))
+        chars = []
+        i = 0
+        bad = False
+        while i < len(items):
+            b = items[i]
+            if not isinstance(b, int):
+                ok = _simp(b < 128)
+                if ok is not True and ex.ctx.feasible(st.pc, z3bool(b_not(ok))):
+                    raise ExecError("from_utf8 on symbolic bytes that may be non-ASCII (outside the encoding)")
+                chars.append(b)
+                i += 1
+                continue
+            if b < 0x80:
+                chars.append(b); i += 1; continue
+            n = 2 if 0xC2 <= b <= 0xDF else 3 if 0xE0 <= b <= 0xEF else 4 if 0xF0 <= b <= 0xF4 else 0
+            seq = items[i:i + n]
+            if n == 0 or len(seq) < n or not all(isinstance(x, int) for x in seq):
+                bad = True
+                break
+            try:
+                chars.append(ord(bytes(seq).decode("utf-8")))
+            except UnicodeDecodeError:
+                bad = True
+                break
+            i += n
+        if bad:
+            return enum("Err", ("opaque", "Utf8Error"))
+        val = mkstr(chars, "line")
+        if "String" in fname:
+            return enum("Ok", val)
+        return enum("Ok", ("refval", val))
 
     def m_vec_insert(ex, st, args, dest_ty, fname):
         r = ref_to(ex, st, args[0])
@@ -118,15 +185,42 @@ def make_models():
         return UNIT
 
     def m_from_elem(ex, st, args, dest_ty, fname):
+        """vec![x; n]: the allocation obligation of C03 lives here — a request for more than 64 KiB + 16 x the bytes supplied is reported
+        as the outcome `ALLOC` (treated like a panic by the obligations); small symbolic n are enumerated."""
         v, n = args
+        supplied = 0
+        for fid, locs in list(st.heap.items()) + [(st.frame, st.locals)]:
+            for val in locs.values():
+                if isinstance(val, NetStream):
+                    supplied = max(supplied, len(val.inp))
+        bound = 65536 + 16 * supplied
         if is_sym(n):
             n = z3.simplify(n)
-            if not z3.is_int_value(n):
-                raise ExecError("vec![x; n] with symbolic n")
-            n = n.as_long()
-        if n > (1 << 20):
-            raise ExecError("vec![x; %d]: allocation beyond the encoding's bound" % n)
-        return VecM(tuple(v for _ in range(n)))
+            if z3.is_int_value(n) or z3.is_bv_value(n):
+                n = n.as_long()
+        if not is_sym(n):
+            if n > bound:
+                return Panic("ALLOC: vec![0; %d] for a length the peer merely claims (%d bytes supplied)" % (n, supplied))
+            return VecM(tuple(v for _ in range(n)))
+        cases = []
+        big = _simp(n > bound)
+        if big is not False and ex.ctx.feasible(st.pc, z3bool(big)):
+            cases.append((big, Panic("ALLOC: vec![0; n] with a claimed n above %d (%d bytes supplied)" % (bound, supplied))))
+        # the buffer is only ever filled by read_exact: every size above the bytes still in the script fails that read in the same way,
+        # so those sizes are represented by ONE buffer of remaining+1 bytes; the sizes up to `remaining` are enumerated
+        remaining = 0
+        for fid, locs in list(st.heap.items()) + [(st.frame, st.locals)]:
+            for val in locs.values():
+                if isinstance(val, NetStream):
+                    remaining = max(remaining, len(val.inp) - val.pos)
+        for k in range(0, remaining + 1):
+            c = _simp(n == k)
+            if c is not False and ex.ctx.feasible(st.pc, z3bool(c) if c is not True else True):
+                cases.append((c, VecM(tuple(v for _ in range(k)))))
+        mid = _simp(z3.And(n > remaining, n <= bound))
+        if mid is not False and ex.ctx.feasible(st.pc, z3bool(mid)):
+            cases.append((mid, VecM(tuple(v for _ in range(remaining + 1)))))
+        return cases
 
     def m_vec_new(ex, st, args, dest_ty, fname):
         return VecM(())
@@ -263,14 +357,42 @@ def make_models():
         return trim_cases(ex, st, sval(ex, st, args[0]), False, True)
 
     def m_parse_usize(ex, st, args, dest_ty, fname):
+        """<usize as FromStr>: optional single '+', then one or more ASCII digits, value < 2^64 (a leading '-' is an error)."""
         s = sval(ex, st, args[0])
         cs = list(str_chars(s))
-        if not all(isinstance(c, int) for c in cs):
-            raise ExecError("parse::<usize> of a symbolic string (templates keep Content-Length concrete)")
-        t = "".join(chr(c) for c in cs)
-        if re.fullmatch(r"\+?[0-9]+", t) and int(t) < (1 << 64):
-            return enum("Ok", int(t))
-        return enum("Err", ("opaque", "ParseIntError"))
+        err = enum("Err", ("opaque", "ParseIntError"))
+        if all(isinstance(c, int) for c in cs):
+            t = "".join(chr(c) for c in cs)
+            if re.fullmatch(r"\+?[0-9]+", t) and int(t) < (1 << 64):
+                return enum("Ok", int(t))
+            return err
+        if not cs:
+            return err
+        digit = lambda c: (z3.And(c >= 48, c <= 57) if is_sym(c) else (48 <= c <= 57))
+        def val(ds):
+            v = 0
+            for c in ds:
+                v = v * 10 + (c - 48)
+            return v
+        alld = True
+        for c in cs:
+            alld = b_and(alld, digit(c))
+        restd = len(cs) > 1
+        for c in cs[1:]:
+            restd = b_and(restd, digit(c))
+        v1, v2 = val(cs), val(cs[1:])
+        inr = lambda v: (z3.And(v >= 0, v < (1 << 64)) if is_sym(v) else 0 <= v < (1 << 64))
+        a1 = _simp(b_and(alld, inr(v1)))
+        a2 = _simp(b_and(b_and(cs[0] == 43 if is_sym(cs[0]) else cs[0] == 43, restd), inr(v2)))
+        cases = []
+        if a1 is not False:
+            cases.append((a1, enum("Ok", v1)))
+        if a2 is not False:
+            cases.append((a2, enum("Ok", v2)))
+        rest = _simp(b_not(b_or(a1, a2)))
+        if rest is not False:
+            cases.append((rest, err))
+        return cases
 
     def m_str_eq(ex, st, args, dest_ty, fname):
         a, b = sval(ex, st, args[0]), sval(ex, st, args[1])
@@ -283,7 +405,9 @@ def make_models():
         return _simp(r)
 
     def m_str_len(ex, st, args, dest_ty, fname):
-        return len(str_chars(sval(ex, st, args[0])))
+        # byte length: symbolic characters are ASCII here (1 byte), concrete ones count their UTF-8 length
+        from .models import utf8_len
+        return sum(1 if is_sym(c) else utf8_len(c) for c in str_chars(sval(ex, st, args[0])))
 
     def m_str_is_empty(ex, st, args, dest_ty, fname):
         return len(str_chars(sval(ex, st, args[0]))) == 0
@@ -415,7 +539,12 @@ def make_models():
         M(r"^<BufReader<&mut T> as BufRead>::read_until$", m_read_until),
         M(r"^<BufReader<&mut T> as std::io::Read>::read_exact$", m_read_exact),
         M(r"^<T as std::io::Read>::read_exact$", m_read_exact),
+        M(r"^<.* as std::io::Read>::by_ref$", m_by_ref),
+        M(r"^<.* as std::io::Read>::take$", m_take),
+        M(r"^<std::io::Take<.*> as std::io::Read>::read_to_end$", m_take_read_to_end),
+        M(r"^Vec::<u8>::len$", m_vec_len),
         M(r"^(std::str::|core::str::)?from_utf8$", m_from_utf8),
+        M(r"^String::from_utf8$", m_from_utf8),
         M(r"^Vec::<u8>::insert$", m_vec_insert),
         M(r"^std::vec::from_elem::<u8>$", m_from_elem),
         M(r"^Vec::<.*>::(with_capacity|new)$", m_vec_new),
